@@ -62,7 +62,7 @@ func buildDirs(root, repo string) []dirSpec {
 	wls := []wm.Workload{
 		{Kind: "Deployment", NS: "ns1", Name: "w1", Labels: map[string]string{"app": "a"}, Ports: []wm.CPort{{Name: "http", Num: 80}}, Replicas: 1},
 		{Kind: "Deployment", NS: "ns1", Name: "w2", Labels: map[string]string{"app": "b"}, Ports: []wm.CPort{{Name: "http", Num: 8080}}, Replicas: 2},
-		{Kind: "StatefulSet", NS: "ns2", Name: "w3", Labels: map[string]string{"app": "a"}, Replicas: 1},
+		{Kind: "StatefulSet", NS: "ns2", Name: "w1", Labels: map[string]string{"app": "a"}, Replicas: 1},
 	}
 	np := wm.NP{NS: "ns1", Name: "p", PodSel: *wm.ML("app", "a"), Types: []string{"Ingress", "Egress"},
 		Ingress: []wm.NPRule{{Peers: []wm.NPPeer{{Pod: wm.ML("app", "b")}, {CIDR: "10.0.0.0/8", Except: []string{"10.1.0.0/16"}}}, Ports: []wm.NPPort{{HasPort: true, Name: "http"}}}},
@@ -71,7 +71,7 @@ func buildDirs(root, repo string) []dirSpec {
 	add("plain", &wm.World{NSs: nss, WLs: wls}, 1, "w1")
 	add("netpol", &wm.World{NSs: nss, WLs: wls, NPs: []wm.NP{np}}, 2, "ns1/w1")
 	add("anp", &wm.World{NSs: nss, WLs: wls, NPs: []wm.NP{np}, ANPs: []wm.ANP{{Name: "a", Prio: 5, Subject: wm.APeer{Namespaces: all}, Ingress: []wm.ARule{{Action: "Deny", Peers: []wm.APeer{{Namespaces: wm.ML("team", "a")}}, Ports: &p80}}}},
-		BANP: &wm.ANP{Name: "default", Subject: wm.APeer{Namespaces: all}, Egress: []wm.ARule{{Action: "Deny", Peers: []wm.APeer{{Namespaces: all}}, Ports: &p80}}}}, 3, "w3")
+		BANP: &wm.ANP{Name: "default", Subject: wm.APeer{Namespaces: all}, Egress: []wm.ARule{{Action: "Deny", Peers: []wm.APeer{{Namespaces: all}}, Ports: &p80}}}}, 3, "ns2/w1")
 	add("ingress", &wm.World{NSs: nss, WLs: wls, NPs: []wm.NP{np}, Svcs: []wm.Svc{{NS: "ns1", Name: "s", Sel: map[string]string{"app": "b"}, Ports: []wm.SvcPort{{Name: "p1", Port: 80, Target: wm.TName("http")}}}},
 		Ings: []wm.Ing{{NS: "ns1", Name: "i", Default: &wm.Backend{Svc: "s", PortNum: 80}}}}, 1, "ingress-controller")
 	// exposure-rich worlds from the exposure scopes (fixed vectors)
